@@ -197,7 +197,67 @@ M = [
 ]
 
 
+# Behaviour-preserving refactorings (no-false-alarm catalogue, DESIGN.md section 5): every listed check must stay green.
+# (name, checks, file, old, new)
+BENIGN = [
+    ('benign-invariants-in-reverse-state-order', ['C08', 'C09', 'C13'], 'sismic/interpreter/default.py',
+     "        for name in configuration:\n            state = self._statechart.state_for(name)\n            self._evaluate_contract_conditions(state, 'invariants', macro_step)",
+     "        for name in reversed(configuration):\n            state = self._statechart.state_for(name)\n            self._evaluate_contract_conditions(state, 'invariants', macro_step)"),
+    ('benign-post-order-exit', ['C02', 'C03', 'C06', 'C07', 'C08', 'C10'], 'sismic/interpreter/default.py',
+     "            for descendant in sorted(\n                    self._statechart.descendants_for(last_before_lca),\n                    key=lambda s: (-self._statechart.depth_for(s), s)):",
+     "            for descendant in (lambda f: f(f, last_before_lca)[:-1])(\n                    lambda f, n: [x for c in sorted(self._statechart.children_for(n)) for x in f(f, c)] + [n]):"),
+    ('benign-guards-evaluated-in-reverse-declaration-order', ['C01', 'C03', 'C04', 'C05', 'C07'], 'sismic/interpreter/default.py',
+     "        for transition in self._statechart.transitions:\n            if transition.source in states:",
+     "        for transition in reversed(self._statechart.transitions):\n            if transition.source in states:"),
+    ('benign-orthogonal-leaf-stabilised-last', ['C02', 'C03', 'C06', 'C07', 'C10'], 'sismic/interpreter/default.py',
+     "            elif isinstance(leaf, OrthogonalState) and self._statechart.children_for(leaf.name):\n                return MicroStep(entered_states=sorted(self._statechart.children_for(leaf.name)))\n",
+     ""),
+    ('benign-runner-sleeps-in-two-halves', ['C20'], 'sismic/runner/runner.py',
+     "            time.sleep(max(0, self.interval - elapsed))",
+     "            time.sleep(max(0, self.interval - elapsed) / 2)\n            time.sleep(max(0, self.interval - elapsed) / 2)"),
+    ('benign-clock-folds-elapsed-on-every-read-free-op', ['C14'], 'sismic/clock/clock.py',
+     "        if not self._play:\n            self._base = time()\n            self._play = True",
+     "        if not self._play:\n            self._time += 0\n            self._base = time()\n            self._play = True"),
+]
+
+
+def run_benign(budget, sel):
+    rows = []
+    for name, checks, path, old, new in BENIGN:
+        if sel and not any(s_ in name or s_ in checks for s_ in sel):
+            continue
+        tmp = tempfile.mkdtemp(prefix='sismic-mut-')
+        try:
+            dst = os.path.join(tmp, 'repo')
+            shutil.copytree('/repo', dst, ignore=shutil.ignore_patterns('.git', '__pycache__', '*.egg-info'))
+            f = os.path.join(dst, path)
+            src = open(f).read()
+            if src.count(old) != 1:
+                print((name, 'PATTERN-NOT-FOUND(%d)' % src.count(old)))
+                continue
+            open(f, 'w').write(src.replace(old, new))
+            p = subprocess.run([PY, '-m', 'pytest', '-q', '-p', 'no:cacheprovider', '-x', '-q', 'tests'], cwd=dst, capture_output=True,
+                               text=True, env=dict(os.environ, PYTHONPATH=dst))
+            tests = p.stdout.strip().splitlines()[-1] if p.stdout.strip() else ''
+            for c in checks:
+                env = dict(os.environ, SISMIC_SRC=dst, VERIF_BUDGET_S=budget, PYTHONHASHSEED='0', VERIF_SHRINK_S='4')
+                q = subprocess.run([PY, '-m', 'sim', 'check', c, '--tier', 'quick'], cwd=HERE, env=env, capture_output=True, text=True)
+                viol = [l for l in q.stdout.splitlines() if l.startswith('violation ')]
+                rows.append((name, c, 'rc=%d' % q.returncode, viol[0][:200] if viol else 'green', tests))
+                print(rows[-1])
+                sys.stdout.flush()
+        finally:
+            shutil.rmtree(tmp, ignore_errors=True)
+    bad = [r for r in rows if r[2] != 'rc=0']
+    print('benign refactorings: %d check runs, %d alarms' % (len(rows), len(bad)))
+    return rows
+
+
 def main(argv):
+    if '--benign' in argv:
+        b = argv[argv.index('--budget') + 1] if '--budget' in argv else '8'
+        run_benign(b, [a for a in argv if not a.startswith('--') and a != b])
+        return 0
     run_tests = '--tests' in argv
     budget = '8'
     if '--budget' in argv:
